@@ -137,6 +137,9 @@ def check(case, res):
                              ('spike_templates', st)):
                 if not np.array_equal(np.asarray(mod[key]).astype(np.float64), exp.astype(np.float64)):
                     bad.append(('model.' + key, 'differs-from-files', describe(exp), describe(mod[key])))
+    if res.get('second_merge_differs'):
+        bad.append(('second-merge', 'output-differs-from-first-merge', 'the same files',
+                    res['second_merge_differs']))
     if not res['inputs_unchanged'] or res['inputs_new_files']:
         bad.append(('inputs', 'modified', 'byte-identical, nothing added',
                     {'changed': res['inputs_changed_files'], 'new': res['inputs_new_files']}))
